@@ -18,7 +18,7 @@ from crosshair.tracers import NoTracing
 
 from . import ch
 from .refprolog import Interp, Cell, goal_text, goal_text_full
-from .worker import DirectUnit
+from .ch import DirectUnit
 
 LEAF_NAMES = 'abcdwxyz'
 CONTEXT = 'efgh'
